@@ -761,3 +761,76 @@ def r7_6(rep):
                     dropped = [acd.canon(x, 2) for x in (c["l"], c["r"]) if "CanDerive::" in acd.canon(x, 2)]
         rep.check(dropped == [bottoms["CannotDerive"]], "cannot-derive-set-drops-bottom",
                   "as_cannot_derive_set drops exactly the entries equal to the bottom `%s` (found %s)" % (bottoms["CannotDerive"], dropped), acd.loc(acd.root))
+
+
+def top_variant(prog, ty):
+    """Last declared variant of a lattice enum (derived Ord follows declaration order)."""
+    m = re.search(r"(ir::[\w:]+)", ty or "")
+    if not m:
+        return None
+    adt = prog.adts.get(m.group(1))
+    if not adt or adt["kind"] != "enum":
+        return None
+    return adt["variants"][-1]["path"]
+
+
+@RULES.rule("R7.7", "constrain gives up early on a node only when that node is already at the top of the lattice", floor=4)
+def r7_7(rep):
+    prog = rep.prog
+    n_exits = 0
+    for a in analyses(rep):
+        b = a.methods["constrain"]
+        adt = prog.adts.get(a.adt)
+        state_ty = {f["name"]: prog.types[f["ty"]] for v in adt["variants"] for f in v["fields"]}
+        for n in b.walk():
+            if n["k"] != "If" or "else" in n or not b.diverges(n["then"]):
+                continue
+            rets = [x for x in b.walk(n["then"]) if x["k"] == "Ret" and "e" in x and b.canon(x["e"], 2) == CR + "Same"]
+            if not rets:
+                continue
+            c = strip(n["cond"])
+            # is the condition a read of the analysis' own state for the node itself?
+            reads = [x for x in b.walk(c) if x["k"] == "MCall" and x["name"] in READ_METHODS and (root_field(x["recv"]) or {}).get("adt") == a.adt
+                     and (root_field(x["recv"]) or {}).get("f") in a.state]
+            if not reads:
+                continue
+            r = reads[0]
+            keysites = tg.sites(b, r["args"][0]) if r["args"] else ["?"]
+            if not all(s.startswith("param:") for s in keysites):
+                continue
+            n_exits += 1
+            f = root_field(r["recv"])["f"]
+            ty = state_ty.get(f, "")
+            key = "%s:early-exit" % a.name
+            if "HashSet<" in ty:
+                rep.check(r["name"] == "contains", key, "membership in the result set is final (two-point lattice)", b.loc(n))
+                continue
+            # map to a lattice enum: only the top value is final
+            mval = re.search(r"HashMap<[^,]+, ([^,>]+)", ty)
+            top = top_variant(prog, mval.group(1) if mval else "")
+            ok = False
+            if c.get("k") == "LetCond" and top:
+                pv = set()
+                p = c["pat"]
+                stack = [p]
+                while stack:
+                    q = stack.pop()
+                    pv |= {v for v in pat_variants(q) if "::" in v and "prelude" not in v and "option" not in v}
+                    stack += q.get("ps", []) + ([q["p"]] if "p" in q else []) + [x["p"] for x in q.get("fs", [])]
+                ok = pv == {top}
+            elif c.get("k") == "Binary" and c["op"] == "==" and top:
+                ok = top in b.canon(c, 6)
+            elif c.get("k") == "Match" and top:
+                # matches!(self.state.get(&id), Some(Top))
+                pv = set()
+                for arm in c["arms"]:
+                    if strip(arm["body"]).get("v") is True:
+                        stack = [arm["pat"]]
+                        while stack:
+                            q = stack.pop()
+                            pv |= {v for v in pat_variants(q) if "::" in v and "prelude" not in v and "option" not in v}
+                            stack += q.get("ps", []) + ([q["p"]] if "p" in q else []) + [x["p"] for x in q.get("fs", [])]
+                ok = pv == {top}
+            rep.check(ok, key, "the early `return Same` requires the node's own value to be the top `%s` of its lattice; any weaker test "
+                      "freezes an intermediate value and makes the result depend on the visiting order" % (top or "?").split("::")[-1], b.loc(n))
+    rep.check(n_exits >= 4, "early-exits-found", "%d early exits on the node's own state" % n_exits)
